@@ -41,7 +41,7 @@ UNFIX = {
     "15d35ad": [("C12", "R-C12-no-uninitialised")],
     "df2915f": [("C13", "R-C13-nep50")],
     "5bd5cfe": [("C14", "R-C14-columns")],
-    "77a8d9d": [("C02", "R-C02-mirror"), ("C14", "R-C14-mirror-twin")],
+    "77a8d9d": [("C02", "R-C02-walk"), ("C14", "R-C14-mirror-twin")],
     "32802d6": [("C14", "R-C14-mirror-twin")],
     "49e5b35": [("C03", "R-C03-dtype-in")],
     "d44587a": [("C17", "R-C17-npz-typestate")],
